@@ -503,6 +503,17 @@ func (r *RigS) stateBefore(task string) string {
 	return sn.Tasks[task].State
 }
 
+// faultTotal: every fault injected so far except crashes.
+func (r *RigS) faultTotal() int {
+	n := 0
+	for k, v := range r.s.Stats {
+		if strings.HasPrefix(k, "fault:") && k != "fault:crash" {
+			n += v
+		}
+	}
+	return n
+}
+
 func (r *RigS) targetFaulted() bool {
 	for k, v := range r.s.Stats {
 		if v > 0 && (k == "fault:tq_err" || k == "fault:ddl_reject_before" || k == "fault:dw_err") {
@@ -570,7 +581,7 @@ func (r *RigS) afterOpQuiescent(o *SOpRec) {
 	}
 	clean := o.Faults == 0
 	if o.K == "reload" {
-		clean = r.s.Stats["fault:store_err_before"]+r.s.Stats["fault:store_err_after"]+r.s.Stats["fault:tq_err"] == r.faultsAtStart
+		clean = r.faultTotal() == r.faultsAtStart
 		r.checkReload(tasks, sn, clean)
 	}
 	r.checkViews(tasks, sn, o)
@@ -750,6 +761,9 @@ func (r *RigS) checkViews(tasks map[string]*meta.TaskInfo, sn server.VerifSnapsh
 				cls = "_failure_pause_not_persisted"
 			}
 			r.s.Violate("C11", "views_disagree"+cls, "task %s after %s: api=%s store=%s memory=%s gauge=%s (reason %q)", id, o.K, views[0], views[1], views[2], views[3], sn.Tasks[id].Reason)
+			if m := r.st.Tasks[id]; m != nil && cls != "" {
+				m.Fuzzy = true // the views of this task already disagree (known class): what later requests on it answer is not judged
+			}
 		}
 		if memv != "absent" && memv != "Initial" && memv != "Running" && memv != "Paused" {
 			r.s.Violate("C11", "bad_state", "task %s is in state %q", id, memv)
